@@ -104,7 +104,7 @@ def strategy(tier):
     def hist(spec):
         base = ops.single_op(spec)
         extra = _extra_ops(spec)
-        mixed = st.lists(st.one_of(base, base, base, *extra), min_size=2, max_size=n)
+        mixed = st.lists(ops.weighted((3, base), (1, st.one_of(*extra))), min_size=2, max_size=n)
         return st.fixed_dictionaries({"spec": st.just(spec), "ops": mixed})
     return worlds.schema_spec(tier, allow=("schema", "configtype", "schemalist", "virtual", "method", "featureflag")).flatmap(_with_includes).flatmap(hist)
 
